@@ -87,8 +87,7 @@ type srcFile struct {
 
 // layout distributes the top-level items over 1-3 files, some without a final
 // newline, deterministically from the case content.
-func layout(items []string, seed uint32) []srcFile {
-	k := 1 + int(seed%3)
+func layout(items []string, seed uint32, k int, roundRobin bool) []srcFile {
 	if k > len(items) {
 		k = len(items)
 	}
@@ -99,8 +98,13 @@ func layout(items []string, seed uint32) []srcFile {
 	for i := range files {
 		files[i].name = fmt.Sprintf("p%d.awk", i+1)
 	}
+	// two ways of distributing the items: contiguous chunks, or round-robin (so that one file holds
+	// items of an early and of a late section with another file's items in between)
 	for i, it := range items {
 		f := i * k / len(items)
+		if roundRobin {
+			f = i % k
+		}
 		files[f].text += it
 	}
 	for i := range files {
@@ -149,10 +153,34 @@ func Replay(raw json.RawMessage) hx.Outcome {
 	}
 	h := fnv.New32a()
 	h.Write(raw)
-	files := layout(items, h.Sum32())
+	seed := h.Sum32()
+	type lay struct {
+		k  int
+		rr bool
+	}
+	lays := []lay{{1 + int(seed%3), (seed>>8)&1 == 1}}
+	if c.Fam == "covershape" || len(items) >= 4 {
+		// shapes made for coverage, and programs with many top-level items: every way of spreading them over files
+		lays = []lay{{1, false}, {2, true}, {3, true}, {2, false}}
+	}
+	var inAny any
+	json.Unmarshal(c.Input, &inAny)
+	stdin := awkast.Input(inAny)
+	for _, l := range lays {
+		if o := runLayout(&c, items, seed, l.k, l.rr, stdin); o != nil {
+			return *o
+		}
+	}
+	return hx.OK(len(c.Profile) > 1)
+}
+
+// runLayout writes the program to files in one layout and performs the three runs; nil = agrees.
+func runLayout(c *caseT, items []string, seed uint32, k int, rr bool, stdin []byte) *hx.Outcome {
+	ret := func(o hx.Outcome) *hx.Outcome { return &o }
+	files := layout(items, seed, k, rr)
 	dir, err := os.MkdirTemp("", "c18-")
 	if err != nil {
-		return hx.Outcome{Fail: &hx.Failure{Sig: "HARNESS-PANIC", What: err.Error()}}
+		return ret(hx.Outcome{Fail: &hx.Failure{Sig: "HARNESS-PANIC", What: err.Error()}})
 	}
 	defer os.RemoveAll(dir)
 	fargs := []string{}
@@ -160,7 +188,7 @@ func Replay(raw json.RawMessage) hx.Outcome {
 	labelAt := map[string]string{} // "file:line" -> label
 	for _, f := range files {
 		if err := os.WriteFile(filepath.Join(dir, f.name), []byte(f.text), 0o644); err != nil {
-			return hx.Outcome{Fail: &hx.Failure{Sig: "HARNESS-PANIC", What: err.Error()}}
+			return ret(hx.Outcome{Fail: &hx.Failure{Sig: "HARNESS-PANIC", What: err.Error()}})
 		}
 		fargs = append(fargs, "-f", f.name)
 		show += "--- " + f.name + "\n" + f.text + "\n"
@@ -170,53 +198,50 @@ func Replay(raw json.RawMessage) hx.Outcome {
 			}
 		}
 	}
-	var inAny any
-	json.Unmarshal(c.Input, &inAny)
-	stdin := awkast.Input(inAny)
 	cls := sigClass(c.Mech)
 
 	plain := runCLI(dir, fargs, stdin)
 	if plain.hang {
-		return hx.Fail("C18/hang/"+cls, "run without coverage does not terminate", nil, nil, show)
+		return ret(hx.Fail("C18/hang/"+cls, "run without coverage does not terminate", nil, nil, show))
 	}
 	if bytes.Contains(plain.stderr, []byte("panic:")) || bytes.Contains(plain.stderr, []byte("goroutine ")) {
-		return hx.Fail("C18/cli-panic/"+cls, "goawk panicked", nil, string(plain.stderr), show)
+		return ret(hx.Fail("C18/cli-panic/"+cls, "goawk panicked", nil, string(plain.stderr), show))
 	}
 	// the plain run must itself agree with the reference semantics (else this is C01's business: skip)
 	plainErr := plain.status != 0 && len(plain.stderr) > 0 && c.Expect.Err
 	if !bytes.Equal(plain.stdout, c.Expect.Out.Bytes()) || (c.Expect.Err != plainErr && c.Expect.Err) || (!c.Expect.Err && plain.status != c.Expect.Status) {
-		return hx.Outcome{Skipped: true, Note: "run without coverage differs from the reference semantics (C01's concern): " + show}
+		return ret(hx.Outcome{Skipped: true, Note: "run without coverage differs from the reference semantics (C01's concern): " + show})
 	}
 	for _, mode := range []string{"count", "set"} {
 		prof := "prof." + mode
 		args := append(append([]string{}, fargs...), "-coverprofile", prof, "-covermode", mode)
 		cov := runCLI(dir, args, stdin)
 		if cov.hang {
-			return hx.Fail("C18/hang/"+cls, "run with coverage does not terminate", nil, nil, show)
+			return ret(hx.Fail("C18/hang/"+cls, "run with coverage does not terminate", nil, nil, show))
 		}
 		if bytes.Contains(cov.stderr, []byte("panic:")) {
-			return hx.Fail("C18/cli-panic/"+cls, "goawk panicked with coverage on", nil, string(cov.stderr), show)
+			return ret(hx.Fail("C18/cli-panic/"+cls, "goawk panicked with coverage on", nil, string(cov.stderr), show))
 		}
 		if !bytes.Equal(cov.stdout, plain.stdout) {
-			return hx.Fail("C18/transparency-stdout/"+cls, "["+mode+"] output differs when coverage is enabled",
-				string(plain.stdout), string(cov.stdout), show)
+			return ret(hx.Fail("C18/transparency-stdout/"+cls, "["+mode+"] output differs when coverage is enabled",
+				string(plain.stdout), string(cov.stdout), show))
 		}
 		if cov.status != plain.status {
-			return hx.Fail("C18/transparency-status/"+cls, fmt.Sprintf("[%s] exit status %d with coverage, %d without", mode, cov.status, plain.status),
-				plain.status, cov.status, show)
+			return ret(hx.Fail("C18/transparency-status/"+cls, fmt.Sprintf("[%s] exit status %d with coverage, %d without", mode, cov.status, plain.status),
+				plain.status, cov.status, show))
 		}
 		if c.Expect.Err {
 			continue // the profile of a run that ends with an error is not specified
 		}
 		data, err := os.ReadFile(filepath.Join(dir, prof))
 		if err != nil {
-			return hx.Fail("C18/profile-missing/"+cls, "["+mode+"] no profile written", nil, err.Error(), show)
+			return ret(hx.Fail("C18/profile-missing/"+cls, "["+mode+"] no profile written", nil, err.Error(), show))
 		}
-		if o := checkProfile(&c, mode, string(data), files, dir, labelAt, cls, show); o != nil {
-			return *o
+		if o := checkProfile(c, mode, string(data), files, dir, labelAt, cls, show); o != nil {
+			return o
 		}
 	}
-	return hx.OK(len(c.Profile) > 1)
+	return nil
 }
 
 func checkProfile(c *caseT, mode, data string, files []srcFile, dir string, labelAt map[string]string, cls, show string) *hx.Outcome {
